@@ -18,11 +18,13 @@ QUICK = [
     ("q3", "<=3 nodes, <=1 nested body, single outputs, every cut", "rotate"),
     ("q2", "<=2 nodes, one two-output node, omitted (None) inputs, Graph and Function kinds, every cut", "rotate"),
     ("d2", "3 nodes, 3 graphs: depth-2 nesting and two bodies on one node, every cut", "rotate"),
+    ("d3", "5 nodes, 4 graphs with a body nested 3 deep (one shape per renumbering), <=1 input per node, cuts with one output", "rotate"),
 ]
 THOROUGH = [
     ("q3", QUICK[0][1], "all"),
     ("q2", QUICK[1][1], "all"),
     ("d2", QUICK[2][1], "all"),
+    ("d3", QUICK[3][1], "all"),
     ("tl", "<=2 nodes, leaf kinds in/in/init and in/both, one two-output node, Graph and Function kinds, every cut", "rotate"),
     ("t3", "3 nodes, one two-output node, <=1 nested body, cuts with <=2 outputs", "rotate"),
     ("td", "4 nodes, 3 graphs, depth <=2, cuts with <=2 outputs", "rotate"),
@@ -36,7 +38,7 @@ def _cfg(tag):
 
 def run(ctx):
     plan = THOROUGH if ctx.tier == "thorough" else QUICK
-    big = {"q3", "q2", "t3", "t4", "td", "tl"}
+    big = {"q3", "q2", "d3", "t3", "t4", "td", "tl"}
 
     def one(item):
         tag = item[0]
